@@ -580,6 +580,17 @@ func ruleTileAddressing(w *World, r *Run, h int64) {
 				r.Check(u.width == wT && impliesWith(facts, inv, "<", wT, full, true), "C18.c", key, w.pos(gd.Pos), "the '.p/' suffix is requested on a path that admits a full tile, or does not carry t.W ("+short(u.width.String())+"); path: "+pathString(e, s))
 			}
 		}
+		// a failure of ReadTiles is the failure of one of its fetches: a refusal of its own (an index it will not ask for, a
+		// payload it does not like) makes the proofs that need that tile impossible to build
+		if len(s.Rets) == 2 && s.Rets[1].Kind != "nil" && !s.Panic {
+			caused := false
+			for _, gd := range gds {
+				if failed(s, gd) {
+					caused = true
+				}
+			}
+			r.Check(caused, "C18.c", rt+" | ReadTiles fails only when a fetch failed", w.pos(s.RetPos), "ReadTiles returns an error on a path where every fetch it made succeeded (or none was made): it refuses a tile on its own authority, so no consistency proof that needs that tile can ever be produced; path: "+pathString(e, s))
+		}
 		// results appended one per tile, in order
 		if len(s.Rets) == 2 && s.Rets[1].Kind == "nil" {
 			elems, _ := sliceElems(s, s.Rets[0])
